@@ -83,3 +83,115 @@ package rtree
 //@   requires [nonnil] r != nil
 //@   ensures [nonneg] validB(*r) && modest(p, *r) ==> result >= 0
 //@   modifies nothing
+
+// ---- Tier 2: tree bookkeeping (height / root level / size) ----
+//
+// levelsOK is the part of the balance invariant that the mutators' epilogues
+// are responsible for: Depth() (tree.height) is the level of the root.
+// rootKidsOK is the one-level unfolding of "child.level == parent.level-1"
+// needed by the root collapse in Delete.
+
+//@ pred levelsOK(tree *Rtree) = tree != nil && tree.root != nil && tree.height >= 1 && tree.root.level == tree.height && (tree.root.leaf <==> tree.height == 1)
+//@ pred kidsOK(n *node) = n.level >= 1 && (n.leaf <==> n.level == 1) && (!n.leaf ==> (forall i int :: 0 <= i && i < len(n.entries) ==> n.entries[i].child != nil && n.entries[i].child.level == n.level - 1 && (n.entries[i].child.leaf <==> n.level == 2)))
+//@ pred rootKidsOK(tree *Rtree) = kidsOK(tree.root)
+
+//@ func NewTree
+//@   prop C11
+//@   requires [params] 2 <= MinChildren && MinChildren <= MaxChildren / 2
+//@   ensures [empty_balanced] fresh(result) && levelsOK(result) && rootKidsOK(result) && result.size == 0 && result.root.leaf && len(result.root.entries) == 0 && result.MinChildren == MinChildren && result.MaxChildren == MaxChildren
+
+//@ func (tree *Rtree) Size
+//@   prop C11
+//@   requires [nonnil] tree != nil
+//@   ensures [field] result == tree.size
+//@   modifies nothing
+
+//@ func (tree *Rtree) Depth
+//@   prop C11
+//@   requires [nonnil] tree != nil
+//@   ensures [field] result == tree.height
+//@   modifies nothing
+
+// Assumed (not proved here): the restructuring helpers keep every node's
+// level, return non-nil nodes of the level they were given and keep the
+// one-level child-level relation.  Their bodies only write the entries and
+// parent fields; proving the full tree-shape invariant through them needs
+// separation reasoning that govc does not have.
+
+//@ func (tree *Rtree) chooseNode
+//@   prop C11
+//@   trusted descends along child links of a well-formed tree; the shape invariant is not proved by govc
+//@   requires [nonnil] tree != nil && n != nil
+//@   ensures [node] result != nil && !fresh(result)
+//@   modifies nothing
+
+//@ func (n *node) split
+//@   prop C11
+//@   trusted redistributes entries between n and a new sibling of the same level; only entries/parent fields are written
+//@   opt havoc=node,entry
+//@   requires [nonnil] n != nil
+//@   ensures [siblings] left == n && right != nil && fresh(right) && right.level == old(n.level) && right.leaf == old(n.leaf)
+//@   ensures [levels_kept] forall m *node :: m != nil && !fresh(m) ==> m.level == old(m.level) && m.leaf == old(m.leaf)
+
+//@ func (tree *Rtree) adjustTree
+//@   prop C11
+//@   trusted propagates boxes and splits upwards; only entries/parent/bb fields are written
+//@   opt havoc=node,entry,geom.Bounds
+//@   requires [nonnil] tree != nil && n != nil && tree.root != nil
+//@   ensures [root] result0 == old(tree.root) && tree.root == old(tree.root) && tree.height == old(tree.height) && tree.size == old(tree.size) && tree.MinChildren == old(tree.MinChildren) && tree.MaxChildren == old(tree.MaxChildren)
+//@   ensures [split_sibling] result1 != nil ==> result1.level == result0.level && result1.leaf == result0.leaf
+//@   ensures [levels_kept] forall m *node :: m != nil && !fresh(m) ==> m.level == old(m.level) && m.leaf == old(m.leaf)
+//@   ensures [shape] kidsOK(result0) && (result1 != nil ==> kidsOK(result1))
+
+//@ func (n *node) computeBoundingBox
+//@   prop C11
+//@   trusted step 1: the entries of a linked node carry non-nil boxes (shape invariant, not proved by govc)
+//@   requires [nonnil] n != nil
+//@   ensures [fresh] result != nil && fresh(result)
+//@   modifies nothing
+
+//@ func (tree *Rtree) insert
+//@   prop C11
+//@   requires [balanced] levelsOK(tree) && rootKidsOK(tree)
+//@   requires [level] 1 <= level && level <= tree.height
+//@   ensures [balanced] levelsOK(tree) && rootKidsOK(tree)
+//@   ensures [bookkeeping] tree.size == old(tree.size) && tree.MinChildren == old(tree.MinChildren) && tree.MaxChildren == old(tree.MaxChildren) && tree.height >= old(tree.height)
+//@   ensures [levels_kept] forall m *node :: m != nil && !fresh(m) ==> m.level == old(m.level) && m.leaf == old(m.leaf)
+//@   opt havoc=node,entry,geom.Bounds
+//@   modifies *tree
+
+//@ func (tree *Rtree) Insert
+//@   prop C11
+//@   requires [balanced] levelsOK(tree) && rootKidsOK(tree)
+//@   requires [obj] obj != nil && nonNilBounds(obj)
+//@   ensures [balanced] levelsOK(tree) && rootKidsOK(tree)
+//@   ensures [size] tree.size == old(tree.size) + 1
+//@   opt havoc=node,entry,geom.Bounds
+//@   modifies *tree
+
+//@ func (tree *Rtree) findLeaf
+//@   prop C11
+//@   trusted read-only descent of a well-formed tree; the shape invariant is not proved by govc
+//@   requires [nonnil] tree != nil && n != nil
+//@   ensures [node] result != nil ==> !fresh(result) && result.leaf && (result != tree.root ==> !sameObj(result.entries, tree.root.entries))
+//@   modifies nothing
+
+//@ func (tree *Rtree) condenseTree
+//@   prop C11
+//@   trusted removes underflowing nodes and re-inserts them through insert (whose contract is proved); the loops write only entries/bb fields
+//@   opt havoc=node,entry,geom.Bounds
+//@   requires [balanced] levelsOK(tree) && rootKidsOK(tree) && n != nil
+//@   ensures [balanced] levelsOK(tree) && rootKidsOK(tree)
+//@   ensures [bookkeeping] tree.size == old(tree.size) && tree.MinChildren == old(tree.MinChildren) && tree.MaxChildren == old(tree.MaxChildren)
+//@   modifies *tree
+
+//@ func (tree *Rtree) Delete
+//@   prop C11
+//@   requires [balanced] levelsOK(tree) && rootKidsOK(tree)
+//@   requires [obj] obj != nil
+//@   ensures [balanced] levelsOK(tree)
+//@   ensures [size] (result ==> tree.size == old(tree.size) - 1) && (!result ==> tree.size == old(tree.size) && tree.root == old(tree.root) && tree.height == old(tree.height))
+//@   opt havoc=node,entry,geom.Bounds
+//@   modifies *tree
+//@   loop 1 `for i, e := range n.entries`
+//@     invariant -1 <= ind && ind < len(n.entries) && n != nil
